@@ -118,8 +118,15 @@ exec_op(const char * l, int ctx)
 		s = &slots[a];
 		if (s->state != 0)
 			return;
-		tv.tv_sec = b; tv.tv_usec = c;
-		s->cookie = events_timer_register(callback, s, &tv);
+		{
+			/* (the timeout belongs to the caller again as soon as the call returns) */
+			struct timeval * tvp = __real_malloc(sizeof(struct timeval));
+			tv.tv_sec = b; tv.tv_usec = c;
+			*tvp = tv;
+			s->cookie = events_timer_register(callback, s, tvp);
+			tvp->tv_sec = 7; tvp->tv_usec = 7;
+			__real_free(tvp);
+		}
 		if (s->cookie != NULL) { s->kind = 3; s->state = 1; }
 		vt_begin("reg_timer"); vt_int("id", a); vt_int("ts", b); vt_int("tu", c); vt_bool("ok", s->cookie != NULL);
 		FK_CLOCK("c", fk_clock_us); vt_int("ctx", ctx); common(); vt_end();
